@@ -142,7 +142,9 @@ def label_index(case):
     """position of the label column for dense sources"""
     lc = case["label_col"]
     if isinstance(lc, str):
-        return case["header"].index(lc)
+        h = case["header"]
+        # a repeated header name denotes its last column (HeadRows: dict(zip(headers, count())))
+        return len(h) - 1 - h[::-1].index(lc)
     return lc
 
 
@@ -548,7 +550,7 @@ def monitor(obs, exp, probes, case, readno, who="impl"):
         elif ints and extra:
             if exp.get("levels") is not None and all(a[0] == "s" and a[1] in exp["levels"] for a in extra):
                 fail("categorical-unused-level-offered",
-                     "actions %s include the level(s) %s that no example carries; distinct labels %s" % (short(acts), short(extra), short(distinct)))
+                     "actions %s include the level(s) %s that no example carries; distinct labels %s" % (short(acts), short(extra), short(distinct)), ["actions"])
             else:
                 fail("actions-not-distinct-labels:extra", "actions %s; distinct labels of the data %s" % (short(acts), short(distinct)), ["actions"])
         for i, it in enumerate(ints):
@@ -644,14 +646,53 @@ def describe(case):
 
 
 # ------------------------------------------------------------------ the Lean model's view
+def reservoir_request(k, n):
+    """what the model's reservoir (Model/C09, seed 1) needs: the count and the float quantities (skip, slot)
+    of the loop iterations, recomputed with the code's own formulas from the LCG uniforms (harness of C09)"""
+    from props.c09 import reservoir_steps, lcg
+    steps = []
+    if 1 <= k <= n:
+        state = 1                      # CobaRandom(1)
+        for _ in range(max(0, k - 1)):  # the initial shuffle of the k reservoir slots draws k-1 uniforms
+            state = lcg(state)
+        steps = reservoir_steps(state, k, n - k)[0]
+    return {"k": k, "steps": steps}
+
+
+def text_request(case, probes, req):
+    """the model reads the text itself (C12 reader model) when the case is inside what those models cover"""
+    src = case["src"]
+    if case.get("take") is not None or case.get("pre") is not None:
+        return None
+    lc = case.get("label_col")
+    label = {"name": lc} if isinstance(lc, str) else {"i": lc}
+    if src == "csv":
+        delim = (case.get("dialect") or {}).get("delimiter", ",")
+        lines = csv_text(case)
+        if case.get("eol"):
+            lines = [l + case["eol"] for l in lines]
+        return dict(req, op="csv_text", lines=lines, delim=ord(delim), header=bool(case.get("header")), label=label)
+    if src in ("libsvm", "manik"):
+        return dict(req, op="svm_text", lines=libsvm_text(case), manik=src == "manik")
+    if src == "arff":
+        lines = arff_text(case)
+        k = lines.index("@data")
+        return dict(req, op="arff_text", attr_lines=[l for l in lines[:k] if l.startswith("@attribute")], data_lines=lines[k + 1:], label=label)
+    return None
+
+
 def model_request(case, probes):
     src = case["src"]
     lt = case.get("label_type")
     exs_all = examples(case)
     take = case.get("take")
-    idxs = reservoir_positions(take, len(exs_all)) if take is not None and src != "xy" else None
     tipe = (case.get("pre") or {}).get("tipe")
-    req = {"given": lt.lower() if lt else None, "tipe": tipe.lower() if tipe else None, "take": idxs, "probes": [probe_json(p) for p in probes]}
+    req = {"given": lt.lower() if lt else None, "tipe": tipe.lower() if tipe else None, "take": None, "probes": [probe_json(p) for p in probes]}
+    treq = text_request(case, probes, req)
+    if treq is not None:
+        return treq
+    if take is not None and src != "xy":
+        req["res"] = reservoir_request(take, len(exs_all))
     dense = src in ("csv", "arff") or (src == "rows" and not case.get("sparse"))
     if dense:
         rows = []
@@ -690,7 +731,9 @@ def model_obs(ans, op):
     for it in m["ints"]:
         if op == "pairs":
             ctx = it["context"]
-        elif op == "dense":
+        elif op == "svm_text":
+            ctx = ["D", sorted(([canon(int(k)), canon(float(v))] for k, v in it["context"]), key=lambda p: json.dumps(p[0]))]
+        elif op in ("dense", "csv_text", "arff_text"):
             ctx = ["L", [from_label(c) for c in it["context"]]]
         else:
             ctx = ["D", sorted(([from_val(k), from_label(v)] for k, v in it["context"]), key=lambda p: json.dumps(p[0]))]
@@ -712,6 +755,8 @@ def compare(impl, model, skip, readno):
     if "all" in skip:
         return None
     if "err" in impl or "err" in model:
+        if model.get("err") == "Upstream" and "err" in impl:
+            return None     # the reader / reservoir model failed and so did the real reader: which exception is C12's / C09's subject
         if impl.get("err") != model.get("err"):
             return ("A:error", "read %d: implementation %s, model %s" % (readno, short(impl.get("err", "ok")), short(model.get("err", "ok"))))
         return None
@@ -862,7 +907,7 @@ class Gen:
             lt = r.choice(["c", "c", "C"])
         elif kind == "bool":
             Y = self.labels_from([{"b": True}, {"b": False}], n)
-            lt = "c"
+            lt = r.choice(["c", "c", None, "r"])      # None: a bool is an int, so regression is inferred (targets 1/0)
         elif kind == "cat":
             levels = self.universe(STR_POOL[:10], 4)
             if len(levels) < 2:
@@ -1015,6 +1060,13 @@ class Gen:
         lc = names[li] if header and m < 5 else (li if m < 9 else li - (width + 1))
         case = {"src": "csv", "via": r.choice(["sim", "sim", "env"]), "kw": r.chance(0.4), "file": r.chance(0.25), "header": header, "rows": rows,
                 "label_col": lc, "label_type": r.choice([None, None, "c", "C"]), "take": self.take_for(n)}
+        if header and isinstance(lc, str) and width >= 1 and r.chance(0.12):
+            # a repeated header name: which column "the" label column is, is not defined by the statement ->
+            # outside the quantifier, only compared with the model (HeadRows: the last one)
+            j = r.choice([k for k in range(width + 1) if k != li])
+            header[j] = header[li]
+            case["edge"] = True
+            case["edge_kind"] = "duplicate-header"
         if r.chance(0.4):
             case["dialect"] = {"delimiter": "\t"}
         if not case["file"] and r.chance(0.4):
@@ -1241,20 +1293,24 @@ class C14(Property):
             "sparse ARFF, LibSVM, Manik text written by canonical writers and read through coba's readers, from IterableSource or a temp file), "
             "labels string / int / float / bool / Categorical / one-element list / label sets, label_type given (c C r R m M) or inferred, label column by "
             "index (also negative) or header, take absent or around n, via SupervisedSimulation or Environments.from_supervised, positional or keyword; "
-            "7% of the cases lie outside the quantifier (duplicate label lists, mixed label kinds ...) and are only compared with the model; "
+            "CSV with tab delimiter / edge white space / empty edge fields / kept line terminators; already labelled sources (rows carrying their own tipe) with an explicit label_type that agrees, differs or is absent; "
+            "text sources without take are parsed by the model itself (C12 reader models), take is sampled by the model itself (C09 reservoir); "
+            "7% of the cases lie outside the quantifier (duplicate label lists, mixed label kinds, repeated CSV header names ...) and are only compared with the model; "
             "non-trivial = at least 2 examples after selection and at least 2 distinct labels (classification / multi-label) or 2 distinct targets (regression)")
     trusted_base = [
-        "the readers (CSV/ARFF/LibSVM/Manik text -> rows) are not modelled: for text sources the model receives the table the harness wrote, so reader + LabelRows + read are jointly compared with the model (reader faults surface as (A)/(B) failures here, their own claims belong to C12/C13)",
-        "the reservoir's selection is not modelled: the selected row positions are obtained from coba's own Reservoir(take) on range(n) and given to the model (C09 covers Reservoir)",
+        "text sources without take: the model reads the text itself with C12's reader models (csvSim, libsvmSim, manikSim, arffDenseSim: header lines and data lines handed over separately, simple path); sparse ARFF and text sources with take: the model receives the table the harness wrote, so reader + LabelRows + read are jointly compared with the model",
+        "take: the model runs C09's reservoir (Algorithm L, seed 1) itself; only the float quantities (skip count, slot) of its loop iterations are recomputed by the harness with the code's formulas from the LCG uniforms (as in C09) and handed in; the statement-level monitor (B) takes the sample positions from coba's own Reservoir",
+        "ARFF numeric tokens are converted by the model only when they are exact decimals (the writer emits small integers and dyadic fractions); float(token) in general is CPython's",
         "float arithmetic: generated numbers are small integers or dyadic rationals with few bits, so -|a-y| is exact in doubles; Jaccard values are compared as the double nearest to the model's rational",
     ]
     assumptions = [
         "a list-valued label under label type m is a label *set* (no repeated member); repeated members are outside the statement (only compared with the model)",
         "the Jaccard overlap of two empty sets is undefined and not demanded (the code raises ZeroDivisionError, as the model does)",
         "take with the (X,Y) overload is not part of the documented signature and is not generated",
+        "'the distinct labels of the data' of a simulation with take are read as the labels of the sampled examples (the simulation's own examples): that is what the code computes and what take_sample_spec states",
         "regression from CSV / LibSVM / Manik text is not generated: these readers deliver labels as strings / lists of strings",
     ]
-    partial_theorems = {"Coba.C14.actions_cat_exact_partial": "with Categorical labels the code offers every declared level (known finding C14-F6): 'exactly the distinct labels' holds when every level occurs among the examples; actions_cat_counterexample shows the hypothesis is necessary"}
+    partial_theorems = {"Coba.C14.end_to_end_arff_dense": "carries C12's forced hypotheses (AttrW.ok: C12-F8/F9, arffRowOk: C12-F11) and covers the reader's simple path with header lines and data lines given separately; sparse ARFF has no end-to-end theorem (C12 proves the sparse round trip per row only)"}
 
     def corpus(self):
         cat = lambda s, L: {"cat": s, "levels": L}
@@ -1375,6 +1431,8 @@ class C14(Property):
             for sig, what, sk in monitor(impl[k], exp, probes, case, k):
                 if case.get("edge") and not sig.startswith("xy-second-read"):
                     continue
+                if case.get("edge_kind") == "duplicate-header":
+                    continue
                 if sig in known:
                     skips[k].update(sk)
                 if sig not in seen:
@@ -1385,6 +1443,10 @@ class C14(Property):
             # model (fixed behaviour) is not compared on the rewards of the offered (scalar) actions
             skips[0].add("on_actions")
             skips[1].add("on_actions")
+        if case.get("edge") and "categorical-unused-level-offered" in known and exp["labels"] and exp["labels"][0][0] == "cat":
+            # the same for the unused-level finding: the model mirrors the repaired shortcut
+            skips[0].add("actions")
+            skips[1].add("actions")
         # the "fixed order" clause: the same examples in reverse order are offered the same action list
         lt = exp["lt"]
         if not case.get("edge") and case.get("take") is None and lt in ("c", "m") and len(case["rows"]) >= 2 and "ints" in impl[0] and impl[0]["ints"]:
@@ -1439,6 +1501,7 @@ class C14(Property):
             ans = driver.ask(req)
             mobs = model_obs(ans, req["op"])
             model = mobs
+            tags.append("model-op:" + req["op"] + (":reservoir" if req.get("res") else ""))
             if mobs.get("err") == "OutOfModel":
                 tags.append("out-of-model")
             else:
